@@ -204,7 +204,7 @@ CHECKS['C01'] = dict(
     rule='deviation-bounded enumeration around well-formed seeds (small.ttf, S-min; S-full, S-full compressed, S-full v3/v4, Feat-v1 font, Padauk; thorough + Scheherazade, Awami plain/compressed, charis): '
          '(bytes) EVERY byte of every table of the small seeds x all 255 other values x faceOptions {0,7}; (fields) every structural field of the generator field map (counts, offsets, lengths, indices, opcodes; first 48 header bytes of each table for shipped fonts) x a boundary value set '
          '{0,1,orig+-1,+-2,half,double,7F,80,FF,100,7FFF,8000,FFFF,max-1,max,mid,table length+-1,remaining length+-1}; (pairs) all pairs of fields of one table x 6x6 values (small seeds; thorough S-full); (truncation) every prefix length of every table, table absent, 1/8/64 trailing garbage bytes; '
-         '(container) every byte of the sfnt header and table directory x all values through gr_make_file_face. Oracle: ASan/UBSan silence, per-mutant watchdog, NULL or a face on which the complete face dump (all gr_face_*/gr_fref_*/gr_featureval_* queries, labels in 3 encodings, is_char_supported probes) and gr_face_destroy complete, '
+         '(compressed_payload) every byte of the compressed Silf and Glat tables of S-full compressed (8-byte wrapper + LZ4 block) x all 255 other values, accepted mutants shaped (thorough + first 300/last 100 bytes of Awami compressed x 15 values); (container) every byte of the sfnt header and table directory x all values through gr_make_file_face. Oracle: ASan/UBSan silence, per-mutant watchdog, NULL or a face on which the complete face dump (all gr_face_*/gr_fref_*/gr_featureval_* queries, labels in 3 encodings, is_char_supported probes) and gr_face_destroy complete, '
          'allocation balance zero, table borrows all returned (also on the NULL path). distinct = distinct face dumps of accepted mutants',
     level_text='Exhaustive single-deviation (and bounded double-deviation) fault enumeration of the table bytes and structural fields around well-formed fonts, each mutant loaded by the real library under sanitizers with a memory-face environment model.',
     level_note='Trusted: ASan/UBSan, allocator statistics, memory face bookkeeping. Corruptions needing more than two coordinated fields are not reached; large shipped fonts are mutated in their header bytes only.',
